@@ -117,6 +117,18 @@ CLAIMED['C16'] = dict(
          'sets from a concrete pool; handler yields pending statuses only.',
     design='5/C16')
 
+CLAIMED['C03'] = dict(
+    text='The real provider loop (run, _check_network, _check_incoming_pdu, _process_incoming, state machine, DIMSE '
+         'reassembly) runs in the calling thread over a simulated transport for 9 conversations (both roles). For every '
+         'peer turn the cut offsets 0 <= c1 <= c2 <= len are unbounded symbolic integers (received data are windows of the '
+         'concrete stream with symbolic bounds), so every single cut and every pair of cuts is decided at once; also a '
+         'symbolic recv() size, the one-byte dribble and the timing of the first segment. Asserted: the whole observable '
+         'trace (indications with contents, bytes written, final state, connection, leftover buffer) equals that of the '
+         'one-PDU-per-segment delivery.',
+    note=TRUSTED + 'Simulated select/socket/queue/clock (vt/sim.py, vt/harness/prov.py); AbsBytes windows; corpus of 9 '
+         'conformant conversations; cuts in one peer turn at a time; multi-PDU turns get one cut in the quick tier.',
+    design='5/C03')
+
 NOT_YET = 'check not built yet in this revision (see DESIGN.md section 5 for the plan)'
 
 NOT_APPLICABLE = {}
